@@ -1641,14 +1641,8 @@ void SoPlexBase<R>::getRowVectorReal(int i, DSVectorBase<R>& row) const
 {
    assert(_realLP);
 
-   if(_realLP->isScaled())
-   {
-      assert(_scaler);
-      row.setMax(_realLP->rowVector(i).size());
-      _scaler->getRowUnscaled(*_realLP, i, row);
-   }
-   else
-      row = _realLP->rowVector(i);
+   // the LP knows its own scaling (the active scaler object may have been switched off since the LP was scaled)
+   _realLP->getRowVectorUnscaled(i, row);
 }
 
 
